@@ -11,6 +11,7 @@ with a pending call is the deadlock verdict; for threads a call exceeding its wa
 from __future__ import annotations
 
 import asyncio
+import os
 import random
 import socket
 import sys
@@ -58,14 +59,32 @@ REQUIRED = [
     "shutdown_waited_for_teardown",
     "shutdown_during_teardown",
     "server_thread_pause_points_reached",
+    "fixed_port_restarts_checked",
 ]
 WATCHDOG = {"quick": 1500, "thorough": 7200}
 OPS = ["serve", "serve", "shutdown", "shutdown", "close", "activate", "echo", "hold", "probe"]
 
 
+def _fixed_port(host: str, udp: bool) -> int:
+    """a currently free port below the kernel's ephemeral range (no other process is handed it by a bind to port 0 or a connect)"""
+    rng = random.Random(os.getpid() * 7919 + time.monotonic_ns())
+    for _ in range(200):
+        port = rng.randrange(20000, 32000)
+        probe = socket.socket(socket.AF_INET, socket.SOCK_DGRAM if udp else socket.SOCK_STREAM)
+        try:
+            probe.bind((host, port))
+            return port
+        except OSError:
+            continue
+        finally:
+            probe.close()
+    raise RuntimeError("no free port found")
+
+
 class EchoStream(AsyncStreamRequestHandler):
-    def __init__(self, init_delay: float, disc_delay: float) -> None:
+    def __init__(self, init_delay: float, disc_delay: float, close_after: bool = False) -> None:
         self.init_delay, self.disc_delay = init_delay, disc_delay
+        self.close_after = close_after  # the server's end closes first: it is the one left in TIME_WAIT on the listening address
 
     async def service_init(self, exit_stack, server):
         if self.init_delay:
@@ -74,6 +93,8 @@ class EchoStream(AsyncStreamRequestHandler):
     async def handle(self, client):
         req = yield
         await client.send_packet(req)
+        if self.close_after:
+            await client.aclose()
 
     async def on_disconnection(self, client):
         if self.disc_delay:
@@ -156,6 +177,14 @@ def template_histories() -> list[dict]:
             for _r in range(nruns):
                 ops += [{"task": 0, "op": "serve", "delay": 0.1}, {"task": 0, "op": "echo", "delay": 0.5}, {"task": 0, "op": "shutdown", "delay": 0.1}]
             out.append({"udp": udp, "ops": ops, "listen_delay": 0, "init_delay": 0, "disc_delay": 0, "ntasks": 1, "template": f"serve-echo-shutdown-x{nruns}"})
+        for nruns in (2, 3):
+            for sc in (False, True):
+                # the same address at every run (the documented way to run a service): the earlier run's connections, closed by
+                # either end first, are still in TIME_WAIT on it when the listeners are created again
+                ops = []
+                for _r in range(nruns):
+                    ops += [{"task": 0, "op": "serve", "delay": 0.1}, {"task": 0, "op": "echo", "delay": 0.5}, {"task": 0, "op": "echo", "delay": 0.1}, {"task": 0, "op": "shutdown", "delay": 0.1}]
+                out.append({"udp": udp, "ops": ops, "listen_delay": 0, "init_delay": 0, "disc_delay": 0, "ntasks": 1, "fixed_port": True, "server_closes": sc, "template": f"restart-on-fixed-port:{'server' if sc else 'client'}-closes-first:x{nruns}"})
         for stop in ("shutdown", "close"):
             for d in (0.05, 0.1, 0.3):
                 ops = [{"task": 0, "op": "serve", "delay": 0}, {"task": 0, "op": "flood", "delay": 0.5}, {"task": 0, "op": stop, "delay": d}, {"task": 0, "op": "serve", "delay": 0}]
@@ -166,6 +195,19 @@ def template_histories() -> list[dict]:
                     for idl in (0, 0.25):
                         ops = [{"task": 0, "op": "serve", "delay": 0}, {"task": 1, "op": y, "delay": d}, {"task": 1, "op": "probe", "delay": 0.6}]
                         out.append({"udp": udp, "ops": ops, "listen_delay": ld, "init_delay": idl, "disc_delay": 0, "ntasks": 2, "template": f"startup:{y}@{d}:listen{ld}:init{idl}"})
+    return out
+
+
+def thread_template_histories() -> list[dict]:
+    """sequential histories for the standalone servers (each serve call is waited for before the next call)"""
+    out = []
+    for udp in (False, True):
+        for nruns in (2, 3):
+            for sc in (False, True):
+                ops = []
+                for _r in range(nruns):
+                    ops += [{"task": 0, "op": "serve", "delay": 0, "wait_up": True}, {"task": 0, "op": "echo", "delay": 0.1}, {"task": 0, "op": "echo", "delay": 0}, {"task": 0, "op": "shutdown", "delay": 0.1}]
+                out.append({"udp": udp, "ops": ops, "listen_delay": 0, "init_delay": 0, "disc_delay": 0, "ntasks": 1, "fixed_port": True, "server_closes": sc, "template": f"standalone-restart-on-fixed-port:{'server' if sc else 'client'}-closes-first:x{nruns}"})
     return out
 
 
@@ -189,10 +231,12 @@ def run_async_history(h: dict) -> dict:
 
     async def main(loop):
         backend = SlowBackend(h["listen_delay"])
+        host = netutil.rand_loopback()
+        port = _fixed_port(host, h["udp"]) if h.get("fixed_port") else 0
         if h["udp"]:
-            server: Any = AsyncUDPNetworkServer(netutil.rand_loopback(), 0, DatagramProtocol(StringLineSerializer()), EchoDgram(h["init_delay"], h.get("work", 0.0)), backend, logger=_quiet())
+            server: Any = AsyncUDPNetworkServer(host, port, DatagramProtocol(StringLineSerializer()), EchoDgram(h["init_delay"], h.get("work", 0.0)), backend, logger=_quiet())
         else:
-            server = AsyncTCPNetworkServer(netutil.rand_loopback(), 0, StreamProtocol(StringLineSerializer()), EchoStream(h["init_delay"], h["disc_delay"]), backend, logger=_quiet())
+            server = AsyncTCPNetworkServer(host, port, StreamProtocol(StringLineSerializer()), EchoStream(h["init_delay"], h["disc_delay"], bool(h.get("server_closes"))), backend, logger=_quiet())
         serve_tasks: list = []
         captured_socks: list = []
 
@@ -236,6 +280,8 @@ def run_async_history(h: dict) -> dict:
                 r = await asyncio.wait_for(lp.sock_recv(s, 100), 5)
                 if not r:
                     return "failed:closed-by-server"  # the server was shut down / closed while we were connected
+                if h.get("server_closes") and not h["udp"]:
+                    await asyncio.wait_for(lp.sock_recv(s, 100), 5)  # the server's end closes first: wait for its FIN
                 if keep and r.strip() == b"ping":
                     # the client stays connected: a later shutdown has a connection to tear down (on_disconnection delay)
                     held.append(s)
@@ -497,10 +543,12 @@ def run_thread_history(h: dict, seed: int) -> dict:
             events.append(kw)
             return kw["i"]
 
+    host = netutil.rand_loopback()
+    port = _fixed_port(host, h["udp"]) if h.get("fixed_port") else 0
     if h["udp"]:
-        server: Any = StandaloneUDPNetworkServer(netutil.rand_loopback(), 0, DatagramProtocol(StringLineSerializer()), EchoDgram(0), logger=_quiet())
+        server: Any = StandaloneUDPNetworkServer(host, port, DatagramProtocol(StringLineSerializer()), EchoDgram(0), logger=_quiet())
     else:
-        server = StandaloneTCPNetworkServer(netutil.rand_loopback(), 0, StreamProtocol(StringLineSerializer()), EchoStream(0, 0), logger=_quiet())
+        server = StandaloneTCPNetworkServer(host, port, StreamProtocol(StringLineSerializer()), EchoStream(0, 0, bool(h.get("server_closes"))), logger=_quiet())
     serve_threads: list = []
     pp = h.get("preempt")
     serve_settled: dict[int, threading.Event] = {}
@@ -543,6 +591,8 @@ def run_thread_history(h: dict, seed: int) -> dict:
             r = s.recv(100)
             if not r:
                 return "failed:closed-by-server"
+            if h.get("server_closes") and not h["udp"]:
+                s.recv(100)  # the server's end closes first: wait for its FIN
             return "ok" if r.strip() == b"ping" else f"bad:{r!r}"
         except OSError as exc:
             return f"failed:{type(exc).__name__}"
@@ -587,6 +637,8 @@ def run_thread_history(h: dict, seed: int) -> dict:
                         # directed mode: a serve call counts as performed once it is up or has ended (bounded wait: it may
                         # legitimately be blocked behind the paused thread)
                         serve_settled[cid].wait(5.0 if (tid == 0 and idx < pp["arm_at"]) else 0.4)
+                    elif o.get("wait_up"):
+                        serve_settled[cid].wait(20.0)  # sequential template: the next call comes once this one is up (or has ended)
                 elif op == "shutdown":
                     server.shutdown()
                     ev("return", call=cid, result="returned", serving=server.is_serving())
@@ -803,6 +855,23 @@ def run_shard(params: dict, ctx) -> None:
         if why:
             key = "close-ignored-during-startup:standalone" if "still serving after server_close" in why else f"history:standalone-{'udp' if h['udp'] else 'tcp'}"
             ctx.violation(key, why, {"history": h, "events": res["events"][-16:], "threads": True})
+    TT = thread_template_histories()
+    for j in range(params["seed"] % 16, len(TT), 16):
+        h = TT[j]
+        ctx.count("kind:standalone-template")
+        res = run_thread_history(h, params["seed"])
+        ctx.case(True, "threads-template", h["template"], h["udp"])
+        if res.get("stuck"):
+            ctx.violation(f"never-returned:standalone-template", f"[{h['template']}] a lifecycle call never returned: stacks {res['stuck']['stacks']}", {"history": h, "threads": True})
+            continue
+        why = check_history(res["events"], ctx, threads=True)
+        echoes = [e["result"] for e in res["events"] if e["k"] == "return" and res["events"][e["call"]].get("op") == "echo"]
+        if not why and any(r in ("not-serving", "failed:ConnectionRefusedError", "failed:closed-by-server") or r.startswith("bad") for r in echoes):
+            why = f"requests sent while the (re)started server was up and no stop request was in progress got {echoes}"
+        if why:
+            ctx.violation(f"history:standalone-template-{'udp' if h['udp'] else 'tcp'}", f"[{h['template']}] {why}", {"history": h, "events": res["events"][-16:], "threads": True})
+        else:
+            ctx.count("fixed_port_restarts_checked")
     # directed preemption: one pause per run, at every line of the standalone lifecycle functions
     D = directed_histories()
     mine = list(range(params["seed"] % 16, len(D), 16))
